@@ -215,18 +215,20 @@ template <class K> static Result run_gersh(Cur &c, bool eig) {
         if (sc) { if (!di) { have_ref = false; break; } s = s * vnorm(dinv); su = su * vnorm_up(dinv); }
         if (s > ref) ref = s; if (su > up) up = su;
     }
+    std::string msg;
     if (have_ref && g.v != ref.v) {
         bool wrong = false;      // diagnosis only: sum_j ||a_ij|| / ||a_ii|| ?
         if (sc) { Q alt(0); for (long i = 0; i < A.n; ++i) { Q s(0), d(0); for (auto j = A.ptr[i]; j < A.ptr[i+1]; ++j) { s += vnorm(A.val[j]); if (A.col[j] == i) d = vnorm(A.val[j]); } s = s / d; if (s > alt) alt = s; } wrong = alt.v == g.v; }
-        r.fail(std::string("Gershgorin estimate != max_i sum_j ||a_ij||") + (sc ? " * ||a_ii^-1||" : "") + (wrong ? " (it is sum_j ||a_ij|| / ||a_ii||: the norm of the inverse is not the inverse of the norm)" : ""));
+        msg = std::string("Gershgorin estimate != max_i sum_j ||a_ij||") + (sc ? " * ||a_ii^-1||" : "") + (wrong ? " (it is sum_j ||a_ij|| / ||a_ii||: the norm of the inverse is not the inverse of the norm)" : "");
     }
     // oracle 2 (the property clause): the estimate bounds every eigenvalue of A resp. D^-1 A — here a known one.  `up - ref` is the
     // allowance for the rounded-down roots (relative 2^-32); `up` itself is a mathematical upper bound of |lam|.
     if (eig && have_ref) {
         Q lim = g + (up - ref); Q l2 = mod2(lam);
-        if (lim < 0 || lim * lim < l2) r.fail("Gershgorin estimate is below the modulus of a known eigenvalue of " + std::string(sc ? "D^-1 A" : "A") + ": not an upper bound of the spectral radius");
-        if (up * up < l2) r.fail("harness: the reference bound itself is below |lambda|");
+        if (lim < 0 || lim * lim < l2) msg += std::string(msg.empty() ? "" : "; ") + "Gershgorin estimate is below the modulus of a known eigenvalue of " + (sc ? "D^-1 A" : "A") + ": not an upper bound of the spectral radius";
+        if (up * up < l2) msg += std::string(msg.empty() ? "" : "; ") + "harness: the reference bound itself is below |lambda|";
     }
+    if (!msg.empty()) r.fail(msg);
     r.out = (Line() << g).get();
     r.nontrivial = A.col.size() > 1 && has_structure(A);
     r.tag(sc ? "gersh_scaled" : "gersh"); if (!onediag) r.tag("missing_or_dup_diag"); if (eig) r.tag("eigenpair");
